@@ -319,7 +319,9 @@ def run_handshakes():
 PSK_SHAPES = ['plain-secret-one', '0xCafe-Secret-Passphrase', '0x00ff17-not-all-hex', '0X1234567890abcdefXYZ', 'with blank and %s {0}',
               'päss-wörd-ünicode', '1234567890123', 'true-or-false-yes', 'c2VjcmV0LWJhc2U2NC1sb29r==', '-leading-dash-secret',
               '[bracketed, secret]', '{curly: secret-value}']
-BROKEN_ELSEWHERE = [('nothing-broken', None), ('unknown-encr', ('conn', 'encr', ['des'])), ('bad-dh', ('conn', 'dh', ['modp-none'])),
+BROKEN_ELSEWHERE = [('nothing-broken', None), ('secret-under-a-misspelt-key-in-auth', ('auth-typo', 'pks', None)),
+                    ('secret-left-at-connection-level', ('conn-secret', 'psk', None)),
+                    ('secret-under-an-unknown-key-in-the-entry', ('entry-secret', 'pre_shared_key', None)), ('unknown-encr', ('conn', 'encr', ['des'])), ('bad-dh', ('conn', 'dh', ['modp-none'])),
                     ('bad-peer-address', ('conn', 'peer_addr', '300.1.1.1')), ('bad-mode', ('entry', 'mode', 'beet')),
                     ('bad-subnet', ('entry', 'my_subnet', '10.0.0.0/33')), ('bad-lifetime', ('conn', 'lifetime', 'soon')),
                     ('bad-pubkey', ('peer_auth', 'pubkey', '-----BEGIN PUBLIC KEY-----\nAAAA\n-----END PUBLIC KEY-----\n')),
@@ -341,7 +343,12 @@ def startup_cases():
                 confs = S.base_confs()
                 conn = confs['A']['conn_ab']
                 conn[which] = dict(conn[which], psk=psk)
-                if broken:
+                if broken and broken[0] in ('auth-typo', 'conn-secret', 'entry-secret'):
+                    # options the loader does not know (a typo, a key at the wrong level) that hold the secret: whatever the
+                    # loader says about them, it does not repeat their values
+                    where, key, _ = broken
+                    {'auth-typo': conn[which], 'conn-secret': conn, 'entry-secret': conn['protect'][0]}[where][key] = psk
+                elif broken:
                     where, key, val = broken
                     target = conn if where == 'conn' else conn['protect'][0] if where == 'entry' else conn[where]
                     target[key] = val
@@ -349,12 +356,36 @@ def startup_cases():
                 note_conf({'A': {'conn_ab': _copy.deepcopy(conn)}})
                 n += 1
                 text = None
+                records = []
+
+                class _Grab(logging.Handler):
+                    def emit(self, record):
+                        try:
+                            records.append((record.levelno, record.getMessage()))
+                        except Exception as ex2:   # noqa
+                            records.append((record.levelno, 'FORMAT-ERROR %r %r' % (record.msg, record.args)))
+                grab = _Grab(level=logging.INFO)
+                root = logging.getLogger()
+                old_level = root.level
+                root.addHandler(grab)
+                root.setLevel(logging.INFO)
                 try:
                     configuration.Configuration([ipaddress.ip_address(S.IP_A)], _copy.deepcopy(confs['A']))
                 except configuration.ConfigurationError as ex:
                     text = 'Configuration error: %s' % ex
                 except Exception as ex:   # noqa - C19 judges the exception type; its text would go to stderr all the same
                     text = 'stderr: %s: %s' % (type(ex).__name__, ex)
+                finally:
+                    root.removeHandler(grab)
+                    root.setLevel(old_level)
+                for lvl, msg in records:
+                    C.COVER['startup-records-scanned'] += 1
+                    hits = scan(msg)
+                    if hits:
+                        viol.append(('M-secret', 'startup:%s:%s-in-a-%s-record:%s' % (lab, hits[0][0].replace(' ', '-'), logging.getLevelName(lvl), hits[0][1]),
+                                     'while the configuration is loaded a %s record shows the %s (%s): %r' % (
+                                         logging.getLevelName(lvl), hits[0][0], hits[0][1], msg[:160]), [],
+                                     'startup:%s:%s:%s' % (which, PSK_SHAPES.index(psk), lab)))
                 if text is None:
                     if not broken:
                         C.COVER['startup-loaded'] += 1
